@@ -306,3 +306,14 @@ Definition task_results (hit : Z -> Z -> bool) (searches : list Z)
            (lines : list Z) : list (Z * Z) :=
   flat_map (fun l => flat_map (fun s => if hit s l then [(l, s)] else [])
                               (task_defs searches)) lines.
+
+(* FileSearcher.add(searchdef, path, allow_global_constraints): a definition
+   added once with allow_global_constraints=False is put into the set
+   constraints_manager.global_restrictions (keyed by definition id) *)
+Definition fs_restrict (restr : list Z) (allow : bool) (d : Z) : list Z :=
+  if negb allow
+  then (if existsb (Z.eqb d) restr then restr else restr ++ [d])
+  else restr.
+
+Definition fs_restrictions (ops : list (Z * bool)) : list Z :=
+  fold_left (fun r op => fs_restrict r (snd op) (fst op)) ops [].
